@@ -152,6 +152,8 @@ def apply_unary(op, rows, columns, leaf_rows=None):
     operation's requirements are not met by ``columns``.
     """
     columns = frozenset(columns)
+    if hasattr(op, "vmon_apply"):
+        return op.vmon_apply(list(rows)), columns
     if isinstance(op, R.Identity):
         return list(rows), columns
     if isinstance(op, R.Calculation):
